@@ -298,6 +298,19 @@ def programs(rng, tier):
             vs = sorted(rng.sample(range(nv), 3))
             b = bdd_from_tt(nv, vs, list(raw_tt(a)))
             family(P, b, with_clauses=True)
+    # conjunctions of k two-path blocks (x_{2i} xor x_{2i+1}): 2^k paths (and 2^k models) in 3k+2 nodes, for k around 64 and 128
+    for k in ([63, 64, 65, 127, 128, 129, 200] if quick else [31, 32, 33, 63, 64, 65, 100, 127, 128, 129, 130, 200, 256, 300]):
+        nv = 2 * k
+        nodes = [(nv, 0, 0), (nv, 1, 1)]
+        cur = 1
+        for i in range(k - 1, -1, -1):
+            nodes.append((2 * i + 1, cur, 0))          # x_{2i+1} = 0 continues
+            n0 = len(nodes) - 1
+            nodes.append((2 * i + 1, 0, cur))          # x_{2i+1} = 1 continues
+            n1 = len(nodes) - 1
+            nodes.append((2 * i, n1, n0))              # x_{2i} = 0 needs x_{2i+1} = 1
+            cur = len(nodes) - 1
+        family(P, nodes)             # no enumeration: 2^k paths
     # single edges skipping EXACTLY g levels for g around the exponent limits of binary64 (2^g is representable up to g = 1023):
     # x_i and all of x_{i+1+g} .. x_{last}: the count is 2^(i+g), finite as a double iff i + g <= 1023
     for g in [52, 53, 54, 62, 63, 64, 65, 1020, 1021, 1022, 1023, 1024, 1025, 1026, 2046, 2047, 2048]:
